@@ -75,7 +75,7 @@ def _fn(b):
 
 
 def _count(ctx, rid, prefix):
-    return sum(1 for x in ctx.instances if x['rule'] == rid and x['key'].startswith('%s | %s' % (rid, prefix)))
+    return sum(1 for x in ctx.instances if x.get('config') == ctx.config and x['rule'] == rid and x['key'].startswith('%s | %s' % (rid, prefix)))
 
 
 def _preds(b, o):
